@@ -338,6 +338,25 @@ func RunDownload(sw *Swarm, rng *rand.Rand, o DownloadOpts) (tr *Tor, stats map[
 				default:
 				}
 			}
+		case x < 85 && r != nil:
+			// write congestion: the remote stops reading and the torrent has a burst of have / dont-have to
+			// announce, so the peer's writer queue fills up and block requests stay queued, unsent
+			r.PauseReading(time.Duration(5+rng.IntN(40)) * time.Second)
+			for k := 0; k < 40+rng.IntN(30); k++ {
+				tr.T.Have(uint32(rng.IntN(np)), k%2 == 0)
+			}
+			sw.Tag("congested")
+			stats["congest"]++
+		case x < 88 && r != nil:
+			// data pushed for every block of a piece, requested or not (late answers to dropped requests,
+			// answers to requests that are still sitting in the peer's queue)
+			pi := rng.IntN(np)
+			for b := 0; b < g.BlocksIn(pi); b++ {
+				off := int64(pi)*int64(g.PieceLen) + int64(b*fixture.Block)
+				r.Send(refwire.Msg{Kind: refwire.KPiece, Index: uint32(pi), Begin: uint32(b * fixture.Block), Data: g.Truth(off, g.BlockLen(pi, b))})
+			}
+			sw.Tag("pushed")
+			stats["push-all"]++
 		case x < 92: // time
 			d := []time.Duration{300 * time.Millisecond, 300 * time.Millisecond, 2500 * time.Millisecond, 6 * time.Second, 31 * time.Second, 70 * time.Second}[rng.IntN(6)]
 			sw.Act("sleep %v", d)
